@@ -13,6 +13,7 @@ import Qvnt.Model.Reg
 import Qvnt.Model.OpExpr
 import Qvnt.Spec.Denote
 import Qvnt.Spec.Dft
+import Qvnt.Model.Interp
 
 open Qvnt
 
@@ -184,6 +185,14 @@ structure DSt where
   v : Option VReg := none
   /-- the implementation's own last observed buffer of the current register -/
   implPsi : Array (Cx Float) := #[]
+  int : Option (Interp Float) := none
+  sym : Option (Sym Float) := none
+  /-- implementation-side observations used by the interpreter oracles -/
+  lastRes : String := ""
+  lastSummary : List String := []
+  snap : List String := []
+  lastFinish : Array (Cx Float) × String := (#[], "")
+  marks : List (String × (Array (Cx Float) × String)) := []
 
 structure Report where
   msgs : Array String := #[]
@@ -231,6 +240,215 @@ def specCtrlRefusal (r : Report) (st : DSt) (ln : Nat) (m : Nat) (e : MultiOp Fl
   if want == implRefused then r
   else r.specfail st ln "c02.refuse" (if want then "refused" else "accepted")
     (if implRefused then "refused" else "accepted")
+
+/-! ### interpreter: Float instances, decoding of the serialised AST -/
+
+instance : ExprFns Float where
+  pi := piF
+  pow := Float.pow
+  rem := fun a b => a - b * (if a / b ≥ 0 then Float.floor (a / b) else Float.ceil (a / b))
+  sqrt := Float.sqrt
+  exp := Float.exp
+  ln := Float.log
+  abs := Float.abs
+  floor := Float.floor
+  ceil := Float.ceil
+  round := Float.round
+  atan2 := Float.atan2
+  max := fun a b => if a.isNaN then b else if b.isNaN then a else if a ≥ b then a else b
+  min := fun a b => if a.isNaN then b else if b.isNaN then a else if a ≤ b then a else b
+  negInf := -(1.0 / 0.0)
+  posInf := 1.0 / 0.0
+
+instance : AngleFns Float where
+  halfPhase := halfPhase
+  quarter := halfPhase fracPi2
+  qftPhase := qftPhase
+
+def hexVal (c : Char) : Nat :=
+  if c.isDigit then c.toNat - '0'.toNat else if c ≥ 'a' && c ≤ 'f' then c.toNat - 'a'.toNat + 10 else 0
+
+def unhex (h : String) : String :=
+  if h == "_" then "" else
+  let cs := h.toList
+  let rec go : List Char → List UInt8 → List UInt8
+    | a :: b :: r, acc => go r ((hexVal a * 16 + hexVal b).toUInt8 :: acc)
+    | _, acc => acc.reverse
+  match String.fromUTF8? ⟨(go cs []).toArray⟩ with
+  | some s => s
+  | none => "\uFFFD"
+
+abbrev Toks := List String
+
+def pArg : Toks → Option (Arg × Toks)
+  | "q" :: n :: i :: r => do some (.qubit (unhex n) (← tokNat i), r)
+  | "r" :: n :: r => some (.register (unhex n), r)
+  | _ => none
+
+def pRpnTok (t : String) : Option (RpnTok Float) :=
+  match t.toList with
+  | 'n' :: r => (String.ofList r).toNat?.map (fun b => .num (Float.ofBits b.toUInt64))
+  | 'v' :: r => some (.var (unhex (String.ofList r)))
+  | ['b', '+'] => some (.bin .plus) | ['b', '-'] => some (.bin .minus) | ['b', '*'] => some (.bin .times)
+  | ['b', '/'] => some (.bin .div) | ['b', '%'] => some (.bin .rem) | ['b', '^'] => some (.bin .pow)
+  | ['u', '+'] => some (.un .plus) | ['u', '-'] => some (.un .minus)
+  | 'f' :: r =>
+    match (String.ofList r).splitOn ":" with
+    | [n, k] => k.toNat?.map (fun k => .func (unhex n) k)
+    | _ => none
+  | _ => none
+
+def pPExpr : Toks → Option (PExpr Float × Toks)
+  | t :: "P" :: r => some (⟨unhex t, .error .parseError⟩, r)
+  | t :: "S" :: r => some (⟨unhex t, .error .rpnError⟩, r)
+  | t :: "K" :: k :: r => do
+    let k ← tokNat k
+    if r.length < k then none
+    else
+      let toks ← (r.take k).mapM pRpnTok
+      some (⟨unhex t, .ok toks⟩, r.drop k)
+  | _ => none
+
+def pMany {α : Type} (p : Toks → Option (α × Toks)) : Nat → Toks → List α → Option (List α × Toks)
+  | 0, r, acc => some (acc.reverse, r)
+  | k + 1, r, acc => do
+    let (a, r') ← p r
+    pMany p k r' (a :: acc)
+
+def pCall : Toks → Option (Call Float × Toks)
+  | n :: nr :: r => do
+    let (regs, r) ← pMany pArg (← tokNat nr) r []
+    match r with
+    | na :: r => do
+      let (args, r) ← pMany pPExpr (← tokNat na) r []
+      some (⟨unhex n, regs, args⟩, r)
+    | _ => none
+  | _ => none
+
+def pInner : Toks → Option (Inner Float × Toks)
+  | "c" :: r => do let (c, r) ← pCall r; some (.call c, r)
+  | "o" :: r => some (.other, r)
+  | _ => none
+
+def pHexName : Toks → Option (String × Toks)
+  | n :: r => some (unhex n, r)
+  | _ => none
+
+def pNode : Toks → Option (Node Float × Toks)
+  | "Q" :: n :: s :: r => do some (.qreg (unhex n) (← tokNat s), r)
+  | "C" :: n :: s :: r => do some (.creg (unhex n) (← tokNat s), r)
+  | "B" :: r => some (.barrier, r)
+  | "O" :: r => some (.opaque, r)
+  | "R" :: r => do let (a, r) ← pArg r; some (.reset a, r)
+  | "M" :: r => do let (q, r) ← pArg r; let (c, r) ← pArg r; some (.measure q c, r)
+  | "A" :: r => do let (c, r) ← pCall r; some (.apply c, r)
+  | "G" :: n :: nr :: r => do
+    let (regs, r) ← pMany pHexName (← tokNat nr) r []
+    match r with
+    | na :: r => do
+      let (args, r) ← pMany pHexName (← tokNat na) r []
+      match r with
+      | nb :: r => do
+        let (body, r) ← pMany pInner (← tokNat nb) r []
+        some (.gate (unhex n) regs args body, r)
+      | _ => none
+    | _ => none
+  | "I" :: l :: v :: r => do let (b, r) ← pInner r; some (.ifn (unhex l) (← tokNat v) b, r)
+  | _ => none
+
+def hexStr (s : String) : String :=
+  if s.isEmpty then "_" else
+  String.join (s.toUTF8.toList.map (fun b =>
+    let d (n : Nat) : Char := if n < 10 then Char.ofNat (48 + n) else Char.ofNat (87 + n)
+    String.ofList [d (b.toNat / 16), d (b.toNat % 16)]))
+
+def evalErrStr : EvalErr → String
+  | .unknownVariable v => "UnknownVariable:" ++ hexStr v
+  | .function n e => "Function:" ++ hexStr n ++ ":" ++ (match e with
+      | .tooFew => "TooFew" | .tooMany => "TooMany" | .numberArgs k => s!"NumberArgs{k}"
+      | .unknownFunction => "UnknownFunction")
+  | .parseError => "ParseError"
+  | .rpnError => "RPNError"
+
+def intErrStr : IntError → String
+  | .noQReg n => s!"NoQReg {hexStr n}"
+  | .noCReg n => s!"NoCReg {hexStr n}"
+  | .dupQReg n k => s!"DupQReg {hexStr n} {k}"
+  | .dupCReg n k => s!"DupCReg {hexStr n} {k}"
+  | .idxOutOfRange n k => s!"IdxOutOfRange {hexStr n} {k}"
+  | .unknownGate n => s!"UnknownGate {hexStr n}"
+  | .invalidControlMask c a => s!"InvalidControlMask {c} {a}"
+  | .unevaluatedArgument w e => s!"UnevaluatedArgument {hexStr w} {evalErrStr e}"
+  | .wrongRegNumber n k => s!"WrongRegNumber {hexStr n} {k}"
+  | .wrongArgNumber n k => s!"WrongArgNumber {hexStr n} {k}"
+  | .unmatchedRegSize a b => s!"UnmatchedRegSize {a} {b}"
+  | .macroError e => "MacroError " ++ (match e with
+      | .disallowedNodeInMacro => "DisallowedNodeInMacro"
+      | .disallowedRegister n k => s!"DisallowedRegister {hexStr n} {k}"
+      | .unknownReg n => s!"UnknownReg {hexStr n}"
+      | .unknownArg n => s!"UnknownArg {hexStr n}"
+      | .recursiveMacro n => s!"RecursiveMacro {hexStr n}")
+  | .macroAlreadyDefined n => s!"MacroAlreadyDefined {hexStr n}"
+  | .disallowedNodeInIf => "DisallowedNodeInIf"
+  | .identIsTooLarge n k => s!"IdentIsTooLarge {hexStr n} {k}"
+  | .registerIsTooLarge n k => s!"RegisterIsTooLarge {hexStr n} {k}"
+
+def probeState (n : Nat) : Array (Cx Float) :=
+  Array.ofFn (n := max (2 ^ n) 8) (fun i =>
+    if i.val < 2 ^ n then
+      ⟨(Float.ofNat ((i.val * 7 + 3) % 11) - 5.0) / 16.0, (Float.ofNat ((i.val * 5 + 1) % 13) - 6.0) / 16.0⟩
+    else 0)
+
+def namesList (l : List String) : String :=
+  if l.isEmpty then "-" else String.intercalate "," (l.map hexStr)
+
+def sepStr : Sep → String
+  | .nop => "nop" | .measure q c => s!"measure:{q}:{c}" | .ifBranch c v => s!"if:{c}:{v}" | .reset q => s!"reset:{q}"
+
+/-- the (names, probe) view of one queue of the block structure -/
+def opView (o : MultiOp Float) (nq : Nat) : String × Option (Array (Cx Float)) :=
+  (opNames o,
+   if nq > 6 || MultiOp.actOn o ≥ max (2 ^ nq) 8 then none
+   else some (MultiOp.applyArr o (probeState nq)))
+
+/-- compare the implementation's summary of an interpreter with the model's -/
+def cmpSummary (r : Report) (st : DSt) (ln : Nat) (tag : String) (int : Interp Float) (obs : Toks) : Report :=
+  let nq := int.qReg.length
+  let sortedMacros := (int.macros.map (fun p => hexStr p.1)).toArray.qsort (· < ·) |>.toList
+  let head := [s!"mop={if int.mOp == .set then "set" else "xor"}", s!"q={namesList int.qReg}",
+               s!"c={namesList int.cReg}",
+               s!"macros={if sortedMacros.isEmpty then "-" else String.intercalate "," sortedMacros}",
+               s!"asts={int.asts.length}", "blocks", toString int.qOps.blocks.length]
+  if obs.take 7 != head then
+    r.mismatch st ln (tag ++ ".summary") (String.intercalate " " head) (String.intercalate " " (obs.take 7))
+  else
+    let rec goBlocks (bs : List (MultiOp Float × Sep)) (o : Toks) (r : Report) (k : Nat) : Report × Toks :=
+      match bs with
+      | [] => (r, o)
+      | (op, sep) :: rest =>
+        match o with
+        | sp :: nm :: o' =>
+          let (names, probe) := opView op nq
+          let r := if sp == sepStr sep && nm == names then r
+                   else r.mismatch st ln (tag ++ s!".block{k}") s!"{sepStr sep} {names}" s!"{sp} {nm}"
+          match probe with
+          | none => goBlocks rest (o'.drop 1) r (k + 1)
+          | some pv =>
+            match parseCVec o' with
+            | some (iv, o'') =>
+              let r := if closeVec pv iv then r else r.mismatch st ln (tag ++ s!".block{k}.probe") (firstDiff pv iv) (showVec iv)
+              goBlocks rest o'' r (k + 1)
+            | none => (r.mismatch st ln (tag ++ s!".block{k}.probe") "cvec" "unparsable", [])
+        | _ => (r.mismatch st ln (tag ++ ".blocks") "more blocks" "end of observation", [])
+    let (r, o) := goBlocks int.qOps.blocks (obs.drop 7) r 0
+    match o with
+    | "tail" :: nm :: o' =>
+      let (names, probe) := opView int.qOps.tail nq
+      let r := if nm == names then r else r.mismatch st ln (tag ++ ".tail") names nm
+      match probe, parseCVec o' with
+      | some pv, some (iv, _) => if closeVec pv iv then r else r.mismatch st ln (tag ++ ".tail.probe") (firstDiff pv iv) (showVec iv)
+      | _, _ => r
+    | _ => r
 
 /-! ### register commands -/
 
@@ -611,6 +829,144 @@ def stepReg (st : DSt) (r : Report) (ln : Nat) (cmd obs : List String) : Option 
     some (st, r)
   | _ => none
 
+/-! ### interpreter commands -/
+
+def splitOn2 (l : Toks) : List Toks :=
+  let rec go : Toks → Toks → List Toks → List Toks
+    | [], cur, acc => (cur.reverse :: acc).reverse
+    | ";;" :: r, cur, acc => go r [] (cur.reverse :: acc)
+    | t :: r, cur, acc => go r (t :: cur) acc
+  go l [] []
+
+def atomBits : Atom Float → List UInt64
+  | .rx _ p | .ry _ p | .rz _ p | .rxx _ p | .ryy _ p | .rzz _ p => [p.re.toBits, p.im.toBits]
+  | .s _ d | .t _ d | .iSwap _ d | .sqrtSwap _ d | .sqrtISwap _ d => [if d then 1 else 0]
+  | _ => []
+
+def multiEq (a b : MultiOp Float) : Bool :=
+  a.length == b.length && (a.zip b).all (fun p =>
+    singleName p.1 == singleName p.2 && p.1.act == p.2.act && atomBits p.1.func == atomBits p.2.func)
+
+def extOpEq (a b : ExtOp Float) : Bool :=
+  a.blocks.length == b.blocks.length && multiEq a.tail b.tail &&
+  (a.blocks.zip b.blocks).all (fun p => p.1.2 == p.2.2 && multiEq p.1.1 p.2.1)
+
+def stepInt (st : DSt) (r : Report) (ln : Nat) (cmd obs : Toks) : Option (DSt × Report) :=
+  match cmd with
+  | ["inew"] =>
+    let int : Interp Float := {}
+    some ({ st with int := some int, sym := none, lastSummary := obs }, cmpSummary r st ln "inew" int obs)
+  | ["ixor"] => do
+    let int ← st.int
+    let int := int.xor
+    some ({ st with int := some int, lastSummary := obs }, cmpSummary r st ln "ixor" int obs)
+  | "isym" :: what :: rest => do
+    let int ← st.int
+    let sym0 : Option (Sym Float) :=
+      match what with
+      | "new" => some (Sym.new int)
+      | "init" =>
+        (match st.sym with
+         | some s =>
+           if s.mOp != int.mOp || !extOpEq s.qOps int.qOps || s.qReg.qNum != int.qReg.length
+               || s.cReg.qNum != int.cReg.length then some (Sym.new int) else some s
+         | none => some (Sym.new int))
+      | "reset" => st.sym.map Sym.reset
+      | _ => st.sym
+    let sym ← sym0
+    match obs with
+    | "draws" :: k :: o =>
+      let k := (tokNat k).getD 0
+      let draws := (o.take k).filterMap tokNat
+      let o := o.drop k
+      let symR : Option (Sym Float) :=
+        if what == "finish" then (sym.finish draws).map (·.1) else some sym
+      match symR, o with
+      | some s', "creg" :: v :: n :: "psi" :: pv =>
+        let r := if s!"{s'.cReg.value} {s'.cReg.qNum}" == s!"{v} {n}" then r
+                 else r.mismatch st ln ("isym." ++ what ++ ".creg") s!"{s'.cReg.value} {s'.cReg.qNum}" s!"{v} {n}"
+        let r := cmpVec r st ln ("isym." ++ what) s'.qReg.psi pv
+        let impl := (parseCVec pv).map (·.1) |>.getD #[]
+        -- C05 on executed programs: the final state is a valid state
+        let r := if what == "finish" then specValid r st ln s'.qReg.qNum impl else r
+        some ({ st with sym := some s', lastFinish := (impl, s!"{v} {n}") }, r)
+      | none, _ => some (st, r.mismatch st ln ("isym." ++ what) "enough-draws" (String.intercalate " " (obs.take 6)))
+      | _, _ => some (st, r.mismatch st ln ("isym." ++ what) "creg v n psi …" (String.intercalate " " (o.take 4)))
+    | _ => some (st, r.mismatch st ln ("isym." ++ what) "draws …" (String.intercalate " " (obs.take 4)))
+  | "igate" :: n :: nr :: rest => do
+    let nr ← tokNat nr
+    let regs ← (rest.take nr).mapM tokNat
+    let rest := rest.drop nr
+    let na ← rest.head?.bind tokNat
+    let args ← ((rest.drop 1).take na).mapM tokFloat
+    let nq ← ((rest.drop (1 + na)).head?).bind tokNat
+    let name := unhex n
+    let (model, probe) : String × Option (Array (Cx Float)) :=
+      match Gates.process name regs args with
+      | .ok o => let (nm, pv) := opView o nq; (s!"ok {nm} {MultiOp.actOn o}", pv)
+      | .err e => ("err " ++ intErrStr e, none)
+      | .panic site => ("panic " ++ site, none)
+    let implHead := if obs.head? == some "ok" then String.intercalate " " (obs.take 3)
+                    else if implPanicked obs then "panic" else String.intercalate " " obs
+    let modelHead := if model.startsWith "panic" then "panic" else model
+    let r := if modelHead == implHead then r else r.mismatch st ln "igate" modelHead implHead
+    let r := match probe, (if obs.head? == some "ok" then parseCVec (obs.drop 3) else none) with
+      | some pv, some (iv, _) => if closeVec pv iv then r else r.mismatch st ln "igate.probe" (firstDiff pv iv) (showVec iv)
+      | _, _ => r
+    some (st, r)
+  | "iexpect" :: what =>
+    let res := st.lastRes
+    match what with
+    | ["ok"] => some (st, specCheck r st ln "iexpect.accept" (res == "ok") "ok" res)
+    | ["asts", k] =>
+      some (st, specCheck r st ln "iexpect.asts" (st.lastSummary.getD 4 "" == s!"asts={k}") s!"asts={k}" (st.lastSummary.getD 4 ""))
+    | [variant] =>
+      some (st, specCheck r st ln "iexpect.plant" (res.startsWith ("err " ++ variant)) ("err " ++ variant) res)
+    | _ => none
+  | ["isnap"] => some ({ st with snap := st.lastSummary }, r)
+  | ["iunchanged"] =>
+    some (st, specCheck r st ln "iunchanged" (st.snap == st.lastSummary) "session summary unchanged"
+      (String.intercalate " " (st.lastSummary.take 8)))
+  | ["isame", a, b] =>
+    match st.marks.find? (·.1 == a), st.marks.find? (·.1 == b) with
+    | some (_, (pa, ca)), some (_, (pb, cb)) =>
+      some (st, specCheck r st ln "isame" (ca == cb && closeVec pa pb) s!"{a}: {ca} {showVec pa}" s!"{b}: {cb} {showVec pb}")
+    | _, _ => some (st, r.mismatch st ln "isame" "both marks" "missing")
+  | [c, _] =>
+    if c == "iadd" || c == "ichg" || c == "iprep" then do
+      let int ← st.int
+      match obs with
+      | "parseerr" :: e =>
+        some ({ st with lastRes := "parseerr " ++ String.intercalate " " e }, r)
+      | "nodes" :: k :: rest =>
+        match splitOn2 rest with
+        | [nodeToks, res, summary] =>
+          let k := (tokNat k).getD 0
+          match pMany pNode k nodeToks [] with
+          | some (nodes, []) =>
+            let out : Interp.PRes Float :=
+              if c == "iadd" then int.addAst nodes
+              else match int.astChanges {} nodes with
+                | .ok ch => .ok (int.appendInt ch)
+                | e => e
+            let (int', model) := match out with
+              | .ok i => (i, "ok")
+              | .err e => (int, "err " ++ intErrStr e)
+              | .panic site => (int, "panic " ++ site)
+            let implRes := String.intercalate " " res
+            let r := if model == implRes then r else r.mismatch st ln (c ++ ".result") model implRes
+            let r := cmpSummary r st ln c int' summary
+            some ({ st with int := some int', lastRes := implRes, lastSummary := summary }, r)
+          | _ => some (st, r.mismatch st ln c "decodable-ast" (String.intercalate " " (nodeToks.take 12)))
+        | _ => some (st, r.mismatch st ln c "nodes ;; result ;; summary" (String.intercalate " " (obs.take 6)))
+      | _ =>
+        -- the implementation panicked while parsing / interpreting
+        some ({ st with lastRes := String.intercalate " " (obs.take 3) }, r.mismatch st ln c "value-or-error" (String.intercalate " " (obs.take 4)))
+    else if c == "imark" then
+      some ({ st with marks := (cmd.getD 1 "", st.lastFinish) :: st.marks }, r)
+    else none
+  | _ => none
+
 def step (st : DSt) (r : Report) (ln : Nat) (cmd obs : List String) : DSt × Report :=
   match cmd with
   | "op" :: prog =>
@@ -705,7 +1061,7 @@ def step (st : DSt) (r : Report) (ln : Nat) (cmd obs : List String) : DSt × Rep
           | none => r
         ({ st with q := some q', implPsi := ((parseCVec obs).map (·.1)).getD q'.psi }, r)
       | _, _ => (st, r.mismatch st ln c "no-reg-or-op" "")
-    else match stepReg st r ln cmd obs with
+    else match (stepReg st r ln cmd obs).orElse (fun _ => stepInt st r ln cmd obs) with
       | some res => res
       | none => (st, r.mismatch st ln c "unknown-command-or-bad-state" "")
   | ["metactrl", m] =>
@@ -859,7 +1215,7 @@ def step (st : DSt) (r : Report) (ln : Nat) (cmd obs : List String) : DSt × Rep
       (st, r)
     | _, _ => (st, r.mismatch st ln "matrix" "no-op" "")
   | c :: _ =>
-    match stepReg st r ln cmd obs with
+    match (stepReg st r ln cmd obs).orElse (fun _ => stepInt st r ln cmd obs) with
     | some res => res
     | none => (st, r.mismatch st ln c "unknown-command-or-bad-state" "")
   | [] => (st, r)
